@@ -874,6 +874,30 @@ static std::string run_op(const std::string& op, Toks& tk, ContentPtr& result) {
     out << "(" << (raised ? "True" : "False") << "," << (hasform ? "True" : "False") << "," << (peek ? "True" : "False") << ")";
     return out.str();
   }
+  else if (op == "both") {
+    // both <n> <n tokens of operation A> <tokens of operation B>: the same operation on two layouts of one value;
+    // payload = (outcome A, outcome B), an exception rendered as E('<type>')
+    int64_t n = tk.i64();
+    Toks a, b;
+    a.pos = 0; b.pos = 0;
+    for (int64_t i = 0; i < n; i++) a.t.push_back(tk.next());
+    while (tk.more()) b.t.push_back(tk.next());
+    auto one = [&](Toks& t) {
+      std::string sub = t.next();
+      try {
+        ContentPtr r(nullptr);
+        std::string p = run_op(sub, t, r);
+        return p + (g_extra.empty() ? std::string() : std::string(""));
+      }
+      catch (std::invalid_argument& e) { return std::string("E('ValueError')"); }
+      catch (std::logic_error& e) { throw; }
+      catch (std::runtime_error& e) { return std::string("E('RuntimeError')"); }
+    };
+    std::string pa = one(a);
+    std::string pb = one(b);
+    out << "(" << pa << "," << pb << ")";
+    return out.str();
+  }
   else if (op == "lazyquery") {
     // queries that must not materialise when length and form are declared
     ContentPtr x = input_layout(tk);
